@@ -59,20 +59,16 @@ Lemma K1_machine_stuck :
   path_ok k1_prog k1_path = true /\ asteps k1_prog (mkA 4 0 0 []) = [].
 Proof. vm_compute. split; reflexivity. Qed.
 
-(* K5: `1 ?> 2 |> ;;` -- the join entry of the chain is the arm's own entry: when
-   the condition holds the arm is re-entered one operand deeper at every turn *)
+(* regression (former C06-K5, inside the class the property excludes): `1 ?> 2 |> ;;`.
+   Before commit b7aaffe the body's closing EndExpression was skipped after the
+   explicit `;;` and the chain's join entry was the arm's own entry (the arm was
+   re-entered forever); now the join names an EndExpression of its own *)
 Definition k5_toks : list token_type := [TT_Number; TT_JumpIfTrue; TT_Number; TT_ElseJump; TT_ExpressionTerminator].
 Definition k5_prog : prog := Eval vm_compute in prog_of_build empty_init (built empty_init (parsed k5_toks)).
-Definition k5_path : list acfg :=
-  [mkA 0 0 0 []; mkA 1 1 0 []; mkA 3 0 0 []; mkA 4 1 0 []; mkA 3 1 0 []; mkA 4 2 0 []; mkA 3 2 0 []].
-Definition k5_class : bool :=
-  match parse k5_toks with
-  | Ok (root, nodes) => match tree_of nodes root with Some t => has_chain_terminator t && has_terminator t | None => false end
-  | _ => false
-  end.
-Lemma K5_loop :
-  k5_class = true /\
-  pjump k5_prog 2 = pjump k5_prog 1 /\ pjump k5_prog 1 = Some 3 /\
-  match infer_depths k5_prog with None => true | Some _ => false end = true /\
-  path_ok k5_prog k5_path = true.
+Lemma K5_repaired :
+  pg_instrs k5_prog = [(I_Put, OData 0); (I_JumpIfTrue, ONum 1); (I_EndExpression, ONone); (I_EndExpression, ONone);
+                       (I_Put, OData 2); (I_JumpTo, ONum 2)] /\
+  pg_jumps k5_prog = [0; 4; 3] /\
+  path_ok k5_prog [mkA 0 0 0 []; mkA 1 1 0 []; mkA 4 0 0 []; mkA 5 1 0 []; mkA 3 1 0 []] = true /\
+  asteps k5_prog (mkA 3 1 0 []) = [AHalt 0 0].
 Proof. vm_compute. repeat split; reflexivity. Qed.
